@@ -2490,20 +2490,26 @@ class Parameters:
         return refs, deps
 
     def _setup_refs(self_, refs):
+        # (watchers kept by _update_ref for references that cannot be
+        # resolved at the moment serve the other references as well: no
+        # parameter is watched twice on behalf of this object)
+        kept = self_.self._param__private.ref_watchers
         groups = defaultdict(list)
         for pname, subrefs in refs.items():
             for p in subrefs:
-
-                if isinstance(p, Parameter):
-                    groups[p.owner].append((pname, p.name))
-                else:
-                    for sp in extract_dependencies(p):
+                for sp in ([p] if isinstance(p, Parameter) else extract_dependencies(p)):
+                    for i, (pairs, w) in enumerate(kept):
+                        if (w.cls if w.inst is None else w.inst) is sp.owner and sp.name in w.parameter_names:
+                            kept[i] = (tuple(pairs) + ((pname, sp.name),), w)
+                            break
+                    else:
                         groups[sp.owner].append((pname, sp.name))
-        for owner, pnames in groups.items():
-            refnames, pnames = zip(*pnames)
+        for owner, pairs in groups.items():
+            # (the watcher is kept with the (reference, parameter) pairs it
+            # serves)
             self_.self._param__private.ref_watchers.append((
-                refnames,
-                owner.param._watch(self_._sync_refs, list(set(pnames)), precedence=-1)
+                tuple(pairs),
+                owner.param._watch(self_._sync_refs, list({p: None for _, p in pairs}), precedence=-1)
             ))
 
     def _update_ref(self_, name, ref=Undefined):
@@ -2531,11 +2537,22 @@ class Parameters:
         if name in param_private.async_refs:
             param_private.async_refs.pop(name).cancel()
         kept = []
-        for refnames, watcher in param_private.ref_watchers:
-            if pending.intersection(refnames):
-                kept.append((refnames, watcher))
-                continue
+        for pairs, watcher in param_private.ref_watchers:
+            if pairs and isinstance(pairs[0], str):
+                # (restored from a pickle of an earlier version: the names
+                # of the references only)
+                pairs = tuple((r, p) for r in pairs for p in watcher.parameter_names)
             dep_obj = watcher.cls if watcher.inst is None else watcher.inst
+            still = tuple((r, p) for r, p in pairs if r in pending)
+            if still and len(still) == len(pairs):
+                kept.append((pairs, watcher))
+                continue
+            elif still:
+                # (it served other references as well: what those depend
+                # on is set up again below, only what the unresolved ones
+                # depended on stays watched on their behalf)
+                kept.append((still, dep_obj.param._watch(
+                    self_._sync_refs, list({p: None for _, p in still}), precedence=-1)))
             # (not there: a copy of an object following a class-level
             # Parameter never had it)
             if any(watcher in (_watcher_list(dep_obj, pname, watcher.what) or [])
